@@ -502,6 +502,14 @@ def pattern_programs():
     for kind, leaves in (("conv1d", [Leaf("x", (1, 1, 5)), Leaf("w", (1, 1, 2))]), ("avg_pool1d", [Leaf("x", (1, 2, 5))]),
                          ("conv2d", [Leaf("x", (1, 1, 2, 5)), Leaf("w", (1, 1, 2, 2))]), ("unfold", [Leaf("x", (1, 1, 5, 1))])):
         add("interleaved_dilated_windows_in_a_diamond", leaves, interleaved(kind), op=kind)
+    # an activation with a parameter outside its everyday range inside a diamond (leaky_relu with a negative slope and with a slope above 1: |x|-like and steeper-than-identity)
+    def leaky_diamond(slope):
+        def build(T, K):
+            h = T["a"] * T["b"]
+            return NF.leaky_relu(h, slope) * h + NF.leaky_relu(T["a"], slope).sum()
+        return build
+    for slope in (-1.0, -0.5, 3.0):
+        add("leaky_relu_with_unusual_slope_in_a_diamond", [Leaf("a", (2,)), Leaf("b", (2,))], leaky_diamond(slope), slope=slope)
     # order independence: the same expression with independent branches built in every order
     def branches(order):
         def build(T, K):
